@@ -11,6 +11,16 @@ p.inline_mode = True
 known = {k["key"] for k in engine.load_known() if k.get("status") == "known"}
 for prop in props:
     mod = importlib.import_module("rules.%s" % prop.lower())
+    # the plain evaluation first, as engine.run_check does: the functions it looks up are this run's atoms
+    p.inline_mode = False
+    p.requested.clear()
+    p.fns.cache.clear()
+    try:
+        c0 = engine.Cx(prop, "quick", p, {"default": p})
+        mod.check(c0)
+    except Exception:
+        pass
+    p.inline_mode = True
     cx = engine.Cx(prop, "quick", p, {"default": p})
     try:
         mod.check(cx)
